@@ -14,19 +14,20 @@ PROP = {
               'thorough': {'histories': 64, 'ops': 100, 'slash': 1, 'readd': 1}},
     'replay_header': S_HEADER,
     'replay_footer': "Eval vm_compute in (failing agrees base_index cases).\nEval vm_compute in (failing c19_ok base_index cases).",
-    'stats_keys': ['histories', 'ops_per_history', 'slash_handles', 'publisher_readd', 'nontrivial'],
+    'stats_keys': ['histories', 'ops_per_history', 'slash_handles', 'publisher_readd', 'nontrivial', 'issue_state_distribution'],
     'assumptions': [
         'values read back from the status namespace are the values written (serde round trip of RepoStatus/ParentStatus/ChildStatus; checked on every restart of the correspondence run); writes to the key-value store do not fail (C08 covers failing writes); no pre-0.9.5 status.json file is present',
         'timestamps, service URIs, user agents and error message texts are outside the model: an error is its label, a last success is a flag',
         'the publication server applies a delta all or nothing as in RFC 8181 (srv_apply; C10 is the property about the server)',
         'outcomes of exchanges are inputs of the model (what the parent CA / the publication server / local command processing did); the harness takes them from the API result, the parent CA (CertAuth::list, get_child), the publication server (get_publisher_details), the CA objects store and the parent command log - except the error label a parent recorded for a failed certificate request, which is only visible in the status itself',
     ],
-    'trusted_extra': ['harness/src/bin/c19.rs: abstraction of CaStatus JSON / status-namespace files to model terms (URIs, contents, error labels, class names interned; resource sets as atom masks)'],
+    'trusted_extra': ['harness/src/bin/c19.rs: abstraction of CaStatus JSON / status-namespace files to model terms (URIs, contents, error labels, class names interned; resource sets as atom masks)',
+                      'harness/src/bin/c19.rs: the issues view over all CAs is assembled in the harness with the loop of src/daemon/http/dispatch/bulk.rs::cas_issues (ca_handles, get_ca_issues, CertAuthIssues::is_empty, AllCertAuthIssues and its JSON / Display) - the HTTP handler itself (private, needs a hyper connection; permission filter per CA) is not run'],
 }
 
 META = {
-    'text': 'Theorems (Coq, closed under the global context) about a model of the CA status store (cache + files of the status namespace, key encoding, warm at start) and of the places where the CA manager records exchange outcomes, for every state, every handle and every history of exchanges, removals and restarts: the entry of a parent shows a failure with its error exactly when the most recent attempt failed (whatever else happened since), success carries the entitlements last returned and every other outcome keeps them; the published list equals the server content after a successful exchange provided it did before (Shadow), and a failed exchange leaves it alone; the parent shows the outcome of the child\'s most recent request; a restart preserves every entry whose handles are free of \'/\' and \'\\\\\' (invariant Sync, initial and kept by every operation); removals remove cache entry and file, never fail and leave other entries alone. Refuted with witnesses and kept as known findings: entries with \'/\' in the handle are lost at restart (F19a), the published list is not self-healing and doubles after the publisher was removed and re-added (F19b). Tied to the code by a correspondence run of the real CaManager/CaStatusStore/RepositoryManager on disk storage: every step of random histories is checked inside Coq against the model (cache view and files) and against the executable form of the theorems (status vs API result, entitlements vs CertAuth::list, published list vs get_publisher_details as multisets, get_ca_issues, before/after restart, removals).',
+    'text': 'Theorems (Coq, closed under the global context) about a model of the CA status store (cache + files of the status namespace, key encoding, warm at start) and of the places where the CA manager records exchange outcomes, for every state, every handle and every history of exchanges, removals and restarts: the entry of a parent shows a failure with its error exactly when the most recent attempt failed (whatever else happened since), success carries the entitlements last returned and every other outcome keeps them; the published list equals the server content after a successful exchange provided it did before (Shadow), and a failed exchange leaves it alone; the parent shows the outcome of the child\'s most recent request; a restart preserves every entry whose handles are free of \'/\' and \'\\\\\' (invariant Sync, initial and kept by every operation); removals remove cache entry and file, never fail and leave other entries alone; the issues views are functions of the status (issues_of, bulk_issues): the view of one CA lists exactly the failed last exchanges, its report is empty iff there is no repository issue AND no parent issue, the view over all CAs lists a CA iff its last repository exchange or the last exchange with at least one parent failed and shows for it what the view of that CA shows, the text reports say \'no issues found\' exactly when nothing failed last - also after any history in which that exchange was the most recent one (the variant of the emptiness test with OR is refuted with a witness). Refuted with witnesses and kept as known findings: entries with \'/\' in the handle are lost at restart (F19a), the published list is not self-healing and doubles after the publisher was removed and re-added (F19b). Tied to the code by a correspondence run of the real CaManager/CaStatusStore/RepositoryManager on disk storage: every step of random histories is checked inside Coq against the model (cache view and files) and against the executable form of the theorems (status vs API result, entitlements vs CertAuth::list, published list vs get_publisher_details as multisets, before/after restart, removals; after every step get_ca_issues of every CA, the issues view over all CAs and the text reports of both are compared with issues_of / bulk_issues of the status and with each other). Every history first walks one leaf CA through: only the parent fails (child removed at the parent), nothing fails, only the repository fails (publisher removed at the server), both fail, and the recovery from each.',
     'design_ref': 'DESIGN.md section 5 C19, section 6 F19a/F19b',
-    'note': 'Trusted: Coq kernel + vm_compute; harness abstraction. Modelled not verified: src/server/ca/status.rs, status parts of src/api/ca.rs, the recording sites in src/server/ca/manager.rs, Ident/Handle name conversion. Outside: timestamps, HTTP transport to remote parents/repositories (only local parents and the local repository are exercised), set_child_suspended (inactivity task; modelled, not exercised), replacement of identity certificates.',
+    'note': 'Trusted: Coq kernel + vm_compute; harness abstraction. Modelled not verified: src/server/ca/status.rs, status and issues parts of src/api/ca.rs (CertAuthIssues, AllCertAuthIssues), the recording sites and get_ca_issues in src/server/ca/manager.rs, the loop of src/daemon/http/dispatch/bulk.rs::cas_issues, Ident/Handle name conversion. Outside: timestamps, HTTP transport to remote parents/repositories (only local parents and the local repository are exercised), the HTTP handlers in front of the views (bulk.rs::cas_issues is re-stated in the harness), replacement of identity certificates.',
     'technique': 'Coq proof over a store+cache model (invariant + frame lemmas, induction over histories) + correspondence and executable oracle evaluated in Coq',
 }
